@@ -56,10 +56,10 @@ fn applies_same(a: &LayerEnv, b: &LayerEnv) -> Option<String> {
 
 pub fn env_files(thorough: bool) -> Report {
     let mut r = Report::new(
-        "witness search on a real tempdir: every pair (old env, new env) of layer environments with up to K entries over 5 scopes (all, build, launch, process web, process worker) x 5 behaviours x names {A, B.c, non-UTF-8} x values {empty, bytes}, written successively into one layer directory holding an unrelated file: afterwards the env directories hold exactly the CNB layout of the NEW env, the unrelated file is untouched, and read_from_layer_dir applies identically to the new env; non-trivial = pairs where old and new differ",
+        "witness search on a real tempdir: every pair (old env, new env) of layer environments with up to K entries over 5 scopes (all, build, launch, process web, process worker) x 5 behaviours x names {A, B.c, non-UTF-8, .hidden.var} x values {empty, bytes}, written successively into one layer directory holding an unrelated file: afterwards the env directories hold exactly the CNB layout of the NEW env, the unrelated file is untouched, and read_from_layer_dir applies identically to the new env; non-trivial = pairs where old and new differ",
         if thorough { "K = 2 entries per environment" } else { "K = 1 entry per environment, plus the empty environment and three multi-scope environments (launch + two process types, two process types, all five scopes)" },
     );
-    let names: Vec<Vec<u8>> = vec![b"A".to_vec(), b"B.c".to_vec(), vec![0xff, b'x']];
+    let names: Vec<Vec<u8>> = vec![b"A".to_vec(), b"B.c".to_vec(), vec![0xff, b'x'], b".hidden.var".to_vec()];
     let vals: Vec<Vec<u8>> = vec![vec![], vec![b'v', 0xfe, b'\n']];
     let mut singles: Vec<Entry> = vec![];
     for s in 0..5u8 { for b in 0..5u8 { for n in 0..names.len() { for v in 0..vals.len() { singles.push((s, b, n, v)); } } } }
